@@ -5,14 +5,23 @@ from props import netprops
 
 LEVEL = "proof"
 RULE = ("matrix over valid SPEC-generated Valve servers: all 9 toggle pairs x section outcome {valid, silent, malformed, "
-        "challenge-then-silent} for players and for rules x app-id relation (main / dedicated / other id / no expectation; "
+        "challenge-then-silent, compressed split that does not decompress (a failure of a kind other than the packet kinds)} for players and for rules x app-id relation (main / dedicated / other id / no expectation; "
         "from the base case's engine and server id) x check on/off. The oracle derives the expected response from the "
         "fault-free one: skipped or failed-Try sections absent, rest intact; failed Enforce = that failure; BadGame exactly "
         "on a foreign id with the check on; request kinds seen on the wire must match. Non-trivial = a delivery received.")
 ASSUMPTIONS = ["timeouts are scripted deliveries (silence)"]
 TRUSTED = ["hand-written Lean model of maybe_gather!/get_response, checked against the code on every run"]
 
-OUTCOMES = ["valid", "silent", "malformed", "chalsilent"]
+OUTCOMES = ["valid", "silent", "malformed", "chalsilent", "undecompressable"]
+# a Source split reply of one fragment, marked compressed (bit 31 of the id), whose stream no bzip2 decoder accepts:
+# the section fails with the decompression error kind, not with a packet error kind
+UNDECOMPRESSABLE = (bytes.fromhex("feffffff") + (0x80000007).to_bytes(4, "little") + bytes([1, 0]) + (1248).to_bytes(2, "little")
+                    + (10).to_bytes(4, "little") + bytes(4) + b"not a bzip2 stream")
+
+
+def compressible(c):
+    """engines whose split layout has the compression fields (Source, except the protocol-7 / app 240 layout)"""
+    return c.args[1].startswith("S:") and c.args[1] != "S:240"
 
 
 def build(valid, tp, tr, op, orr, check, new_id):
@@ -30,8 +39,10 @@ def build(valid, tp, tr, op, orr, check, new_id):
             newds += groups[k]
         elif o == "silent":
             newds.append(None)
-        elif o == "malformed":
+        elif o == "malformed" or (o == "undecompressable" and not compressible(c)):
             newds.append(b"\xff\xff")
+        elif o == "undecompressable":
+            newds.append(UNDECOMPRESSABLE)
         else:
             newds += [bytes.fromhex("ffffffff41") + b"\x01\x02\x03\x04", None]
     c.script = [newds]
@@ -129,4 +140,24 @@ def run(rep, tier, seed, replay=None):
                 out.append(("toggle-response:valve", f"toggles {tp}{tr} outcomes {op}/{orr} check {check} rel {rel}: expected {exp[:200]} got {got[:200]}"))
         return out
 
-    vlib.correspond(rep, netprops.corpus("C11") + cases, oracle=oracle, trivial=netprops.trivial, tag="c11")
+    # the combinator itself on every error kind the library has: Skip never runs, Try hides EVERY failure, Enforce
+    # returns it (the Lean theorems C11_try_fail / C11_enforce_fail quantify over the kind; this ties them to the macro)
+    KINDS = ["PacketOverflow", "PacketUnderflow", "PacketBad", "PacketSend", "PacketReceive", "Decompress", "SocketConnect",
+             "SocketBind", "InvalidInput", "BadGame", "AutoQuery", "ProtocolFormat", "UnknownEnumCast", "JsonParse", "TypeParse",
+             "HostLookup"]
+    gexp = {}
+    for t in "ste":
+        for o in ["ok"] + KINDS:
+            cid = f"mg_{t}_{o}"
+            cases.append(f"{cid} gather {t} {o}")
+            gexp[cid] = "OK -" if t == "s" else ("OK +7" if o == "ok" else ("OK -" if t == "t" else "ERR " + o))
+    inner = oracle
+
+    def oracle2(case, impl, model, panic):
+        cid = case.split(" ", 1)[0]
+        if cid in gexp:
+            rep.count("combinator-kind")
+            return [] if impl == gexp[cid] else [("maybe-gather:" + cid, f"maybe_gather!({cid[3]}, {cid[5:]}) gave {impl}, documented: {gexp[cid]}")]
+        return inner(case, impl, model, panic)
+
+    vlib.correspond(rep, netprops.corpus("C11") + cases, oracle=oracle2, trivial=netprops.trivial, tag="c11")
